@@ -82,8 +82,17 @@ def _observe(job):
         d22 = False
         if fm[0] != fm[1]:
             # finding D22: a single authored space between a tag close and a tag open is removed. Counterfactual: the source without those spaces
-            x2 = re.sub(r"(-->|%\}|#\}|\}\}) (?=<!--|\{%|\{#|\{\{)", r"\1", x)
-            d22 = x2 != x and project.flat(project.parse_marko(x2)) == fm[1]
+            # (any subset of them: where the wrapper breaks the line between two tags the space survives as the newline)
+            import itertools
+            spots = [mm.start(1) + len(mm.group(1)) for mm in re.finditer(r"(-->|%\}|#\}|\}\}) (?=<!--|\{%|\{#|\{\{)", x)]
+            for r_ in range(1, len(spots) + 1):
+                for sub in itertools.combinations(spots, r_):
+                    x2 = "".join(ch for k_, ch in enumerate(x) if k_ not in sub)
+                    if project.flat(project.parse_marko(x2)) == fm[1]:
+                        d22 = True
+                        break
+                if d22:
+                    break
         return dict(id=tid, src=x, out=o1, obs=observe_ends(para, o1), same_m=fm[0] == fm[1], lit_same=lit_seq(x) == lit_seq(o1), idem=o1 == o2, d22=d22)
     except BaseException as e:  # noqa: BLE001
         return dict(id=tid, src=x, exc=repr(e))
